@@ -383,25 +383,36 @@ theorem getChunk_cantReturn {cfg : Cfg} (hw : cfg.wf) (v : Variant) {s : Store} 
 
 /-! ### the chunk loop of get_sdr_data_helper -/
 
+/-- what `get_fn` returns or raises is the chunk reader's outcome, whichever reservation id the
+helper keeps afterwards -/
+theorem getFn_fst {σ : Type} (C : Consts) (v : Variant) (x : Xport σ) (s : Store) (id : Nat) (st : σ)
+    (res off cnt : Nat) : (getFn C v x s id st res off cnt).1 = getChunk C v x s st res id off cnt := rfl
+
+theorem getFn_eq {σ : Type} {C : Consts} {v : Variant} {x : Xport σ} {s : Store} {id : Nat} {st st1 : σ}
+    {res off cnt res1 : Nat} {o : Outcome (Nat × List Nat)}
+    (h : getFn C v x s id st res off cnt = ((st1, o), res1)) : getChunk C v x s st res id off cnt = (st1, o) := by
+  have := congrArg Prod.fst h
+  simpa [getFn] using this
+
 theorem dataLoop_succ {σ : Type} (X : XConsts) (v : Variant)
-    (get : σ → Nat → Nat → σ × Outcome (Nat × List Nat)) (recLen r m : Nat) (st : σ) (acc : List Nat)
-    (next : Nat) (last : List Nat) :
-    dataLoop X v get recLen (r + 1) m st acc next last =
+    (get : σ → Nat → Nat → Nat → (σ × Outcome (Nat × List Nat)) × Nat) (recLen r m : Nat) (st : σ) (res : Nat)
+    (acc : List Nat) (next : Nat) (last : List Nat) :
+    dataLoop X v get recLen (r + 1) m st res acc next last =
       if r = 0 then (st, .retryError) else
-      match get st acc.length (if acc.length + m > recLen then recLen - acc.length else m) with
-      | (st1, .ok (nx, d)) =>
-        if (acc ++ d).length ≥ recLen then (st1, .ok (nx, acc ++ d))
-        else dataLoop X v get recLen r m st1 (acc ++ d) nx d
-      | (st1, .ccError c) =>
+      match get st res acc.length (if acc.length + m > recLen then recLen - acc.length else m) with
+      | ((st1, .ok (nx, d)), res1) =>
+        if (acc ++ d).length ≥ recLen then (st1, .ok ((nx, acc ++ d), res1))
+        else dataLoop X v get recLen r m st1 res1 (acc ++ d) nx d
+      | ((st1, .ccError c), res1) =>
         if c = X.cantReturn then
           if m ≤ X.reqLenDec then
             (st1, if v.fallThrough then .pyError "unmodelled:max_req_len<=0" else .retryError)
           else if v.fallThrough then
-            if (acc ++ last).length ≥ recLen then (st1, .ok (next, acc ++ last))
-            else dataLoop X v get recLen r (m - X.reqLenDec) st1 (acc ++ last) next last
-          else dataLoop X v get recLen r (m - X.reqLenDec) st1 acc next last
+            if (acc ++ last).length ≥ recLen then (st1, .ok ((next, acc ++ last), res1))
+            else dataLoop X v get recLen r (m - X.reqLenDec) st1 res1 (acc ++ last) next last
+          else dataLoop X v get recLen r (m - X.reqLenDec) st1 res1 acc next last
         else (st1, .ccError c)
-      | (st1, e) => (st1, recast e) := by
+      | ((st1, e), _) => (st1, recast e) := by
   rw [dataLoop]
   rfl
 
@@ -414,19 +425,19 @@ theorem loop_arith {j k r m off recLen : Nat} (hj : j ≤ 4) (hm : m = 20 - 4 * 
   rcases this with rfl | rfl | rfl | rfl | rfl <;> simp at hm <;> subst hm <;> omega
 
 theorem dataLoop_exact {cfg : Cfg} (hw : cfg.wf) (v : Variant) (hv : v.fallThrough = false) (s : Store)
-    (res hid : Nat) (rec : List Nat) (nx0 : Nat) (hl : lookup (cfg.recs s) hid = some (rec, nx0))
+    (hid : Nat) (rec : List Nat) (nx0 : Nat) (hl : lookup (cfg.recs s) hid = some (rec, nx0))
     (hid_lt : hid < 65536) (hrec : rec.length ≤ 260) :
-    ∀ r m st acc next last st' nx d,
+    ∀ r m st res acc next last st' nx d res',
       acc = rec.take acc.length → acc.length ≤ rec.length →
       (∃ j k, j ≤ 4 ∧ m = 20 - 4 * j ∧ acc.length = 5 + m * k ∧ j + k + r = 20 ∧ (0 < k → m ≤ cfg.limit)) →
-      dataLoop XK v (fun st off len => getChunk K v (step cfg) s st res hid off len) rec.length r m st acc next last
-        = (st', .ok (nx, d)) →
+      dataLoop XK v (getFn K v (step cfg) s hid) rec.length r m st res acc next last
+        = (st', .ok ((nx, d), res')) →
       d = rec ∧ nx = nx0 := by
   intro r
   induction r with
-  | zero => intro m st acc next last st' nx d _ _ _ he; simp [dataLoop] at he
+  | zero => intro m st res acc next last st' nx d res' _ _ _ he; simp [dataLoop] at he
   | succ r ih =>
-    intro m st acc next last st' nx d hacc hle ⟨j, k, hj, hm, hoff, hbud, hlim⟩ he
+    intro m st res acc next last st' nx d res' hacc hle ⟨j, k, hj, hm, hoff, hbud, hlim⟩ he
     rw [dataLoop_succ] at he
     by_cases hr0 : r = 0
     · simp [hr0] at he
@@ -435,8 +446,9 @@ theorem dataLoop_exact {cfg : Cfg} (hw : cfg.wf) (v : Variant) (hv : v.fallThrou
       generalize hlen : (if acc.length + m > rec.length then rec.length - acc.length else m) = len at he
       have hlen_le : len ≤ m := by rw [← hlen]; split <;> omega
       have hlen_in : acc.length + len ≤ rec.length := by rw [← hlen]; split <;> omega
-      rcases hg : getChunk K v (step cfg) s st res hid acc.length len with ⟨st1, o⟩
-      simp only [hg] at he
+      rcases hgf : getFn K v (step cfg) s hid st res acc.length len with ⟨⟨st1, o⟩, res1⟩
+      have hg := getFn_eq hgf
+      simp only [hgf] at he
       cases o with
       | ok p =>
         obtain ⟨nx1, b⟩ := p
@@ -460,6 +472,7 @@ theorem dataLoop_exact {cfg : Cfg} (hw : cfg.wf) (v : Variant) (hv : v.fallThrou
         · simp only [if_pos hfin] at he
           injection he with _ he2
           injection he2 with he2
+          injection he2 with he2 _
           injection he2 with he3 he4
           subst he3; subst he4
           refine ⟨?_, rfl⟩
@@ -470,7 +483,7 @@ theorem dataLoop_exact {cfg : Cfg} (hw : cfg.wf) (v : Variant) (hv : v.fallThrou
           have hfin' : acc.length + len < rec.length := by omega
           have hlm : len = m := by
             rw [← hlen]; rw [← hlen] at hfin'; split <;> rename_i hh <;> simp only [hh, if_true, if_false] at hfin' <;> omega
-          refine ih m st1 (acc ++ b) _ b st' nx d ?_ ?_ ⟨j, k + 1, hj, hm, ?_, by omega, ?_⟩ he
+          refine ih m st1 res1 (acc ++ b) _ b st' nx d res' ?_ ?_ ⟨j, k + 1, hj, hm, ?_, by omega, ?_⟩ he
           · rw [hlab]; exact hacc'
           · omega
           · rw [hlab, hoff, hlm, Nat.mul_succ]; omega
@@ -501,7 +514,7 @@ theorem dataLoop_exact {cfg : Cfg} (hw : cfg.wf) (v : Variant) (hv : v.fallThrou
             have hdec' : XK.reqLenDec = 4 := rfl
             rw [hdec'] at hdec he
             simp only [Bool.false_eq_true, if_false] at he
-            refine ih (m - 4) st1 acc next last st' nx d hacc hle ⟨j + 1, 0, by omega, by omega, ?_, by omega, ?_⟩ he
+            refine ih (m - 4) st1 res1 acc next last st' nx d res' hacc hle ⟨j + 1, 0, by omega, by omega, ?_, by omega, ?_⟩ he
             · simp at hoff ⊢; exact hoff
             · intro h; omega
         · simp [if_neg hc] at he
@@ -588,12 +601,13 @@ theorem hdr_facts (rec : List Nat) :
 /-! ### get_sdr_data_helper returns the record or an error -/
 
 theorem getSdrDataWith_exact {cfg : Cfg} (hw : cfg.wf) (v : Variant) (hv : v.fallThrough = false) (s : Store)
-    (st : State) (id : Nat) (hid : id < 65536) (res : Nat) {st' : State} {nx : Nat} {d : List Nat}
-    (hh : getSdrDataWith K XK v (step cfg) s st id res = (st', .ok (nx, d))) :
+    (st : State) (id : Nat) (hid : id < 65536) (res : Nat) {st' : State} {nx : Nat} {d : List Nat} {res' : Nat}
+    (hh : getSdrDataWith K XK v (step cfg) s st id res = (st', .ok ((nx, d), res'))) :
     lookup (cfg.recs s) id = some (d, nx) := by
   unfold getSdrDataWith at hh
-  rcases hg : getChunk K v (step cfg) s st res id 0 XK.hdrLen with ⟨st1, o⟩
-  rw [hg] at hh
+  rcases hgf : getFn K v (step cfg) s id st res 0 XK.hdrLen with ⟨⟨st1, o⟩, res1⟩
+  have hg := getFn_eq hgf
+  rw [hgf] at hh
   cases o with
   | ok p =>
     obtain ⟨nx1, d1⟩ := p
@@ -609,18 +623,18 @@ theorem getSdrDataWith_exact {cfg : Cfg} (hw : cfg.wf) (v : Variant) (hv : v.fal
     rw [if_neg (by omega)] at hh
     obtain ⟨hh1, hh2⟩ := hdr_facts rec
     rw [hh1, hh2, hwf.2.2.2] at hh
-    have := dataLoop_exact hw v hv s res (recId rec) rec nx1 (lookup_self hl) hwf.2.2.1 hwf.2.1
-      20 20 st1 (rec.take 5) nx1 (rec.take 5) st' nx d (by simp) (by simp; omega)
+    have := dataLoop_exact hw v hv s (recId rec) rec nx1 (lookup_self hl) hwf.2.2.1 hwf.2.1
+      20 20 st1 res1 (rec.take 5) nx1 (rec.take 5) st' nx d res' (by simp) (by simp; omega)
       ⟨0, 0, by omega, by omega, by simp; omega, by omega, by intro h; omega⟩ hh
     obtain ⟨rfl, rfl⟩ := this
     exact hl
   | _ => simp [recast] at hh
 
-theorem getSdrData_exact {cfg : Cfg} (hw : cfg.wf) (v : Variant) (hv : v.fallThrough = false) (s : Store)
-    (st : State) (id : Nat) (hid : id < 65536) (res? : Option Nat) {st' : State} {nx : Nat} {d : List Nat}
-    (h : getSdrData K XK v (step cfg) s st id res? = (st', .ok (nx, d))) :
+theorem getSdrDataR_exact {cfg : Cfg} (hw : cfg.wf) (v : Variant) (hv : v.fallThrough = false) (s : Store)
+    (st : State) (id : Nat) (hid : id < 65536) (res? : Option Nat) {st' : State} {nx : Nat} {d : List Nat} {res' : Nat}
+    (h : getSdrDataR K XK v (step cfg) s st id res? = (st', .ok ((nx, d), res'))) :
     lookup (cfg.recs s) id = some (d, nx) := by
-  unfold getSdrData at h
+  unfold getSdrDataR at h
   cases res? with
   | some r => exact getSdrDataWith_exact hw v hv s st id hid r h
   | none =>
@@ -630,5 +644,36 @@ theorem getSdrData_exact {cfg : Cfg} (hw : cfg.wf) (v : Variant) (hv : v.fallThr
     cases o with
     | ok r => exact getSdrDataWith_exact hw v hv s st0 id hid r h
     | _ => simp [recast] at h
+
+/-- `getSdrData` (get_repository_sdr / get_device_sdr) is `getSdrDataR` without the reservation id -/
+theorem getSdrData_ok {σ : Type} {C : Consts} {X : XConsts} {v : Variant} {x : Xport σ} {s : Store} {st st' : σ}
+    {id : Nat} {res? : Option Nat} {p : Nat × List Nat}
+    (h : getSdrData C X v x s st id res? = (st', .ok p)) :
+    ∃ res', getSdrDataR C X v x s st id res? = (st', .ok (p, res')) := by
+  unfold getSdrData at h
+  rcases hr : getSdrDataR C X v x s st id res? with ⟨st1, o⟩
+  rw [hr] at h
+  cases o with
+  | ok q =>
+    obtain ⟨q1, q2⟩ := q
+    simp [dropRes] at h
+    obtain ⟨rfl, rfl⟩ := h
+    exact ⟨q2, rfl⟩
+  | _ => simp [dropRes, recast] at h
+
+theorem getSdrData_of_R {σ : Type} {C : Consts} {X : XConsts} {v : Variant} {x : Xport σ} {s : Store} {st st' : σ}
+    {id : Nat} {res? : Option Nat} {p : Nat × List Nat} {res' : Nat}
+    (h : getSdrDataR C X v x s st id res? = (st', .ok (p, res'))) :
+    getSdrData C X v x s st id res? = (st', .ok p) := by
+  unfold getSdrData
+  rw [h]
+  rfl
+
+theorem getSdrData_exact {cfg : Cfg} (hw : cfg.wf) (v : Variant) (hv : v.fallThrough = false) (s : Store)
+    (st : State) (id : Nat) (hid : id < 65536) (res? : Option Nat) {st' : State} {nx : Nat} {d : List Nat}
+    (h : getSdrData K XK v (step cfg) s st id res? = (st', .ok (nx, d))) :
+    lookup (cfg.recs s) id = some (d, nx) := by
+  obtain ⟨res', h'⟩ := getSdrData_ok h
+  exact getSdrDataR_exact hw v hv s st id hid res? h'
 
 end PyIpmi.Model.SdrXfer
